@@ -38,7 +38,16 @@ def _eval_str(e, module, env):
         return pattern_of(module, e.value.id, env)
     if isinstance(e, ast.Name) and e.id in module.globals:
         return _eval_str(module.globals[e.id], module, env)
+    if isinstance(e, ast.Name) and e.id in getattr(module, 'pkg_imports', {}) and MODULES:
+        # a constant defined in another module of the package and imported here
+        mname, rname = module.pkg_imports[e.id]
+        other = MODULES.get(mname)
+        if other is not None and rname in other.globals:
+            return _eval_str(other.globals[rname], other, env)
     raise Undecidable('regex pattern expression %s' % ast.unparse(e))
+
+
+MODULES = None      # name -> Module of the package under analysis (set by Model)
 
 
 def pattern_of(module, name, env=None):
